@@ -1,0 +1,27 @@
+//go:build verif
+
+// Contracts for govc (/verif): C11 (custodian half) — the CONTENT of a parsed custodian update as a function of (bytes, genesis flag).
+// Comment-only file.
+
+package common
+
+//@ -- ParseCustodianUpdateNodesExtra is a deterministic function of its two arguments (it reads no mutable global state): the fields of the
+//@ -- request it returns are these uninterpreted functions of (the byte string of extra, genesis). ASSUMED (clause [deterministic], an `assumes`
+//@ -- clause of its contract in zz_contracts_c34_verif.go, whose verified clauses already pin every field to the input bytes).
+//@ uninterp PCust(e mathint, g bool) Address
+//@ uninterp PSig(e mathint, g bool) crypto.Signature
+//@ uninterp PLen(e mathint, g bool) mathint
+//@ uninterp PNodeC(e mathint, g bool, k mathint) Address
+//@ uninterp PNodeP(e mathint, g bool, k mathint) Address
+//@ -- ReqIs(o, e, g): the request object o holds exactly the content of the parse of (e, g) (Transaction / Timestamp are set by the reader)
+//@ spec ReqIs(o *CustodianUpdateRequest, e mathint, g bool) bool = o != nil && o.Custodian != nil && *o.Custodian == PCust(e, g) &&
+//@     o.Signature != nil && *o.Signature == PSig(e, g) && len(o.Nodes) == PLen(e, g) &&
+//@     (forall k int :: {o.Nodes[k]} 0 <= k && k < len(o.Nodes) ==> o.Nodes[k] != nil && o.Nodes[k].Custodian == PNodeC(e, g, k) &&
+//@        o.Nodes[k].Payee == PNodeP(e, g, k) && len(o.Nodes[k].Extra) == custodianNodeExtraSize)
+//@ -- SameReq(a, b): the two request objects hold the same content (Transaction / Timestamp apart)
+//@ spec SameReq(a *CustodianUpdateRequest, b *CustodianUpdateRequest) bool = ((a.Custodian == nil) <==> (b.Custodian == nil)) &&
+//@     (a.Custodian != nil ==> *a.Custodian == *b.Custodian) && ((a.Signature == nil) <==> (b.Signature == nil)) &&
+//@     (a.Signature != nil ==> *a.Signature == *b.Signature) && len(a.Nodes) == len(b.Nodes) &&
+//@     (forall k int :: {a.Nodes[k]} 0 <= k && k < len(a.Nodes) ==> a.Nodes[k] != nil && a.Nodes[k].Custodian == b.Nodes[k].Custodian &&
+//@        a.Nodes[k].Payee == b.Nodes[k].Payee && len(a.Nodes[k].Extra) == custodianNodeExtraSize)
+//@ -- NOT part of the content relation: the 353 raw bytes of CustodianNode.Extra (the keys parsed from them are; see tools/claims.d/C11.json)
